@@ -502,8 +502,9 @@ func ruleMemWriterTruncates(c *Ctx, rule string) {
 				}
 			}
 		}
+		resetDeep := ipEventOK(isReset, 2)
 		exits := RunPaths(mw, nil, 0, func(st int, in ssa.Instruction, d bool) int {
-			if isReset(in) {
+			if resetDeep(in) {
 				return 1
 			}
 			return st
